@@ -1,20 +1,20 @@
 SPECIFICATION Spec
 CONSTANTS
-  Ids = {"A", "B", "C"}
+  Ids = {"A", "B"}
   InitUp = {"A", "B"}
-  Small = {}
+  Small = {"s1", "s2"}
   Big = {}
   Fanout = 3
   TxLimit = 3
   SendList = "current"
-  OnTimeout = "stuck"
+  OnTimeout = "ready"
   OkayRequired = 3
-  Budgets = {0, 6}
+  Budgets = {0}
   MaxStop = 1
-  Transport = "udp"
-  Redial = "on_failure"
-  MaxReset = 0
-  MaxJoin = 2
+  Transport = "tls"
+  Redial = "never"
+  MaxReset = 2
+  MaxJoin = 1
   UOrder <- MCOrder
 VIEW View
 INVARIANTS Delivered Readiness Sane
